@@ -1,8 +1,8 @@
-/- Driver ops for C02 (none yet). -/
-import Xrfmv.Drv.Common
+/- Driver ops for C02: the selection state machine (shared with C03). -/
+import Xrfmv.Drv.C03
 
 namespace Xrfmv.Drv.C02
 
-def ops : List (String × Handler) := []
+def ops : List (String × Handler) := Xrfmv.Drv.C03.ops
 
 end Xrfmv.Drv.C02
